@@ -1,6 +1,7 @@
 import StepupModel.K.Scheduler
 import StepupModel.Lemmas.K
 import StepupModel.Lemmas.MetaAfterW
+import StepupModel.Lemmas.MetaSafeReach
 /-!
 # C10  Dispatch is exact: nothing ineligible starts, nothing eligible is left
 
@@ -11,8 +12,10 @@ satisfies the specification on the cached columns and that `none` is returned on
 does, (3) show that `_update_meta_ready` makes the cached `_ready` equal to its definition, and
 (4) the defer cap, (5) the worklist of `_update_meta_after` computes the unique solution of the
 local equations of `_implied_need`/`_tail_time`, equals the from-scratch refresh and terminates in
-every reachable database, under the flag discipline `CacheInvAfter`.  That discipline (and the
-agreement of the cached `_safe` column) after any history is decided by the oracle on the real database
+every reachable database, under the flag discipline `CacheInvAfter`.  (6) the same for `_update_meta_safe`
+(`_safe`, `_safe_ignoring_hold`) under its discipline `CacheInvSafeW`, the weakest possible one, and
+termination of the whole refresh in every reachable database.  The two flag disciplines after any
+history are decided by the oracle on the real database
 (`harness/koracles.py`), not yet by a theorem (DESIGN section 9/C10, T2).
 -/
 namespace StepupModel.Props.C10
@@ -225,6 +228,61 @@ contains steps at the start of a dependency chain of length >= 2r. -/
 theorem update_meta_after_terminates_after_every_history (h : List (KConfig × Req)) (cfg : KConfig) :
     ∃ s', (KState.init.run h).updateMetaAfter cfg = .ok s' :=
   updateMetaAfter_reachable_no_hang h cfg
+
+/-! ## The cached `_safe` / `_safe_ignoring_hold` agree with their definition after a refresh -/
+
+open StepupModel.K.MetaSafe in
+/-- `_update_meta_safe` (`FILL_SAFE_UPDATE` with `MAX(depth)` + `APPLY_SAFE_UPDATE`): with unique keys,
+well-founded step-creator links and the flag discipline `CacheInvSafeW` (every step that is neither
+flagged `_check_safe` nor below a flagged step satisfies its local equation) the refresh ends,
+changes only `_safe`, `_safe_ignoring_hold`, `_check_safe`, clears every flag and leaves every step
+with both local equations satisfied.  `updateMetaSafe_correct_iff` shows this discipline is the
+weakest possible: the result is consistent iff it held. -/
+theorem update_meta_safe_correct {s : KState} (hk : KeysUnique s) (hwf : StepCreatorWF s) (hc : CacheInvSafeW s) :
+    ∃ s', s.updateMetaSafe = .ok s' ∧ SafeFrame s s' ∧
+      (∀ n ∈ s'.nodes, n.key.kind = .step → n.checkSafe = false ∧ SafeLocal s' n ∧ SafeNHLocal s' n) :=
+  updateMetaSafe_spec hk hwf hc
+
+open StepupModel.K.MetaSafe in
+/-- Incremental = from scratch: after the refresh the cached columns equal the specification
+(walk up the creator links: every recursive step creator RUNNING or SUCCEEDED, and not holding). -/
+theorem cached_safe_equals_definition {s s' : KState} (hk : KeysUnique s) (hwf : StepCreatorWF s)
+    (hc : CacheInvSafeW s) (h : s.updateMetaSafe = .ok s') :
+    ∀ n' ∈ s'.nodes, n'.key.kind = .step → n'.safe = safeSpec s' n' ∧ n'.safeNH = safeNHSpec s' n' :=
+  (updateMetaSafe_eq_spec hk hwf hc h).1
+
+open StepupModel.K.MetaSafe in
+/-- "Created by steps that are running or succeeded and are not holding it back": the job that
+`pop_next_job` hands out has every recursive step creator RUNNING or SUCCEEDED with no open hold,
+or it has a stored hash, is only hash-checked (`checking`), and every recursive step creator is
+RUNNING or SUCCEEDED. -/
+theorem dispatched_step_has_active_creators {s s' : KState} {cfg : KConfig} {k : Key} {d : Dispatch}
+    (hk : KeysUnique s) (hwf : StepCreatorWF s) (hc : CacheInvSafeW s)
+    (h : s.popNext cfg (some k) = .ok (s', d)) :
+    ∃ su n, s.updateMeta cfg = .ok su ∧ SameStruct s su ∧ n ∈ su.nodes ∧ n.key = k ∧
+      ((∀ a, StrictAnc su a n → a.sstate.active = true ∧ a.holding = 0) ∨
+       (n.hasHash = true ∧ (∃ run, d = .job k true run) ∧ ∀ a, StrictAnc su a n → a.sstate.active = true)) :=
+  popNext_job_creators hk hwf hc h
+
+open StepupModel.K.MetaSafe in
+/-- The whole metadata refresh (`_update_meta`: safe, after, ready) terminates in every reachable
+database: creator links (of attached AND detached nodes) and dependencies are acyclic after every
+history, so neither recursive query can run away (the defect F11 was such a runaway). -/
+theorem update_meta_terminates_after_every_history (h : List (KConfig × Req)) (cfg : KConfig) :
+    ∃ su, (KState.init.run h).updateMeta cfg = .ok su :=
+  updateMeta_reachable_no_hang h cfg
+
+open StepupModel.K.MetaSafe in
+/-- The repaired defect F14 on the model: with `MIN(depth)` as duplicate resolution the witness
+(a flagged step two creator levels below a flagged ancestor, stale value in between) ends with a
+row that violates its local equation and no flag left to repair it; with `MAX(depth)` it is
+consistent. -/
+theorem min_depth_resolution_is_wrong :
+    (∃ s', updateMetaSafeMin defectWitness = .ok s' ∧ ¬ SafeConsistent s' ∧ (∀ n ∈ s'.nodes, n.checkSafe = false)) ∧
+    (∃ s', defectWitness.updateMetaSafe = .ok s' ∧ SafeConsistent s') := by
+  obtain ⟨s1, h1, hn, hf, _⟩ := defectWitness_min
+  obtain ⟨s2, h2, hc, _⟩ := defectWitness_max
+  exact ⟨⟨s1, h1, hn, hf⟩, ⟨s2, h2, hc⟩⟩
 
 /-! The flag discipline `CacheInvAfterW` itself is NOT a theorem over all histories: it is what the
 defect F20 violated.  It is evaluated (a) on the model state after every request of the generated
